@@ -448,7 +448,13 @@ def _impl_eq_hash(inp):
     r = (a == b)
     if (b == a) != r:
         raise AssertionError("__eq__ is not symmetric")
-    return {"eq": bool(r), "hash_eq": hash(a) == hash(b)}
+    return {"eq": bool(r), "hash_eq": hash(a) == hash(b), **_membership(a, b)}
+
+
+def _membership(a, b):
+    """what the contract is for: b as a member of {a}, as a key of {a: …}, the size of {a, b}"""
+    return {"in_set": b in {a}, "in_frozenset": b in frozenset([a]), "dict_get": {a: 1}.get(b) == 1,
+            "set_size": len({a, b}), "dict_size": len(dict.fromkeys([a, b]))}
 
 
 def _cmp_eq_hash(inp, io, mo):
@@ -462,9 +468,18 @@ def _cmp_eq_hash(inp, io, mo):
 
 
 def _holds_eq_hash(ctx, inp, io):
-    if isinstance(io, dict) and io.get("eq") and not io.get("hash_eq"):
-        return "a == b but hash(a) != hash(b)" + (f" (a obtained by {inp['how']} from an object hashed before)"
-                                                    if inp.get("how") else "")
+    if not isinstance(io, dict) or "eq" not in io:
+        return None
+    how = f" (a obtained by {inp['how']} from an object hashed before)" if inp.get("how") else ""
+    if io["eq"] and not io.get("hash_eq"):
+        return "a == b but hash(a) != hash(b)" + how
+    if "in_set" in io:
+        if io["eq"] and not (io["in_set"] and io["in_frozenset"] and io["dict_get"]):
+            return "a == b but b is not found in {a} / as a key of {a: …}" + how
+        if io["eq"] and (io["set_size"] != 1 or io["dict_size"] != 1):
+            return "a == b but {a, b} has two members" + how
+        if not io["eq"] and (io["in_set"] or io["dict_get"] or io["set_size"] != 2):
+            return "a != b but b is found in {a}" + how
     return None
 
 
@@ -789,7 +804,7 @@ def _impl_py_eq_hash(inp):
     r = (a == b)
     if (b == a) != r:
         raise AssertionError("__eq__ is not symmetric")
-    return {"eq": bool(r), "hash_eq": hash(a) == hash(b)}
+    return {"eq": bool(r), "hash_eq": hash(a) == hash(b), **_membership(a, b)}
 
 
 def _cmp_py_eq_hash(inp, io, mo):
@@ -1008,6 +1023,89 @@ def _class_pool(cls_name, base, variants):
     return out
 
 
+# ---- nearly equal values: 1 ulp, relative 1e-12 .. 1e-9, absolute 1e-12, other spellings -------------
+def _ulp_up(x):
+    return math.nextafter(x, math.inf)
+
+
+NEAR_F = [0.3, 0.1 + 0.2, 1.0, _ulp_up(1.0), 1.0 - 2.0 ** -53, 1.0 + 1e-12, 1.0 + 1e-10, 1.0 + 1e-9, 1.0 + 2e-9,
+          1e9, 1e9 + 1e-6, 1e9 * (1 + 1e-12), 1, 1e-12, 2e-12, 0.0, -0.0, 5e-324, -0.3, -(0.1 + 0.2)]
+# the same for fields restricted to [0, 1]
+NEAR_01 = [0.3, 0.1 + 0.2, 1.0, 1.0 - 2.0 ** -53, 1.0 - 1e-12, 1.0 - 1e-10, 1.0 - 1e-9, 1, 0.5, _ulp_up(0.5),
+           0.5 * (1 + 1e-12), 0.5 + 1e-12, 1e-12, 2e-12, 0.0, -0.0, 5e-324, 0]
+# positive times
+NEAR_T = [0.3, 0.1 + 0.2, 1.0, _ulp_up(1.0), 1.0 + 1e-12, 1.0 + 1e-10, 1.0 + 1e-9, 1, 1e-12, 2e-12, 3600.0,
+          _ulp_up(3600.0), 3600.0 * (1 + 1e-11)]
+NEAR_S = ["dog", "Dog", "DOG", "dog ", " dog", "dog\t", "caf\u00e9", "cafe\u0301", "CAF\u00c9", "stra\u00dfe", "strasse",
+          "\ufb01n", "fin", "", " "]
+
+
+def _near_specs():
+    """class -> [(label, values, builder(value) -> kwargs)]: objects that differ in one scalar only, by very little"""
+    from soundevent import data
+    U = [str(_uuid.UUID(int=i + 101)) for i in range(12)]
+    t0 = lambda: mk_term(T0)  # noqa: E731
+    rec = lambda: data.Recording(uuid=U[0], path="a/rec.wav", duration=7200.0, channels=1, samplerate=8000)  # noqa: E731
+    feat = lambda v: data.Feature(term=t0(), value=v)  # noqa: E731
+    tag = lambda v: data.Tag(term=t0(), value=v)  # noqa: E731
+    ptag = lambda s: data.PredictedTag(tag=tag("dog"), score=s)  # noqa: E731
+    se = lambda fs=(), g=None: data.SoundEvent(  # noqa: E731
+        uuid=U[1], recording=rec(), features=list(fs), geometry=g or data.TimeInterval(coordinates=[0.0, 1.0]))
+    user = lambda n: data.User(uuid=U[2], username=n, name="N")  # noqa: E731
+    note = lambda m: data.Note(uuid=U[3], message=m, created_by=user("u"),  # noqa: E731
+                               created_on=datetime.datetime(2020, 1, 2, 3, 4, 5))
+    clip = lambda en: data.Clip(uuid=U[4], recording=rec(), start_time=0.0, end_time=en)  # noqa: E731
+    sep = lambda s: data.SoundEventPrediction(uuid=U[5], sound_event=se(), score=s)  # noqa: E731
+    tkw = lambda **kw: {"label": "species", "definition": "d", "name": "dwc:species", **kw}  # noqa: E731
+    dt = datetime.datetime(2020, 1, 2, 3, 4, 5)
+    S = {}
+    S["Term"] = [("name", NEAR_S, lambda v: tkw(name=v)), ("label", NEAR_S, lambda v: tkw(label=v)),
+                 ("uri", NEAR_S, lambda v: tkw(uri=v)), ("+note", NEAR_S, lambda v: {**tkw(), "+note": v})]
+    S["Tag"] = [("value", NEAR_S, lambda v: dict(term=t0(), value=v)),
+                ("term.label", NEAR_S, lambda v: dict(term=data.Term(**tkw(label=v)), value="dog"))]
+    S["Feature"] = [("value", NEAR_F, lambda v: dict(term=t0(), value=v)),
+                    ("term.name", NEAR_S, lambda v: dict(term=data.Term(**tkw(name=v)), value=0.5))]
+    S["Note"] = [("message", NEAR_S, lambda v: dict(uuid=U[3], message=v, created_on=dt)),
+                 ("created_by.username", NEAR_S[:8],
+                  lambda v: dict(uuid=U[3], message="m", created_by=user(v), created_on=dt))]
+    S["SoundEvent"] = [
+        ("features.value", NEAR_F, lambda v: dict(uuid=U[1], recording=rec(), features=[feat(v)],
+                                                  geometry=data.TimeInterval(coordinates=[0.0, 1.0]))),
+        ("geometry.end", NEAR_T, lambda v: dict(uuid=U[1], recording=rec(),
+                                                geometry=data.TimeInterval(coordinates=[0.0, v]))),
+        ("geometry.high_freq", NEAR_T, lambda v: dict(uuid=U[1], recording=rec(),
+                                                      geometry=data.BoundingBox(coordinates=[0.0, 0.0, 1.0, v])))]
+    S["SoundEventAnnotation"] = [
+        ("tags.value", NEAR_S, lambda v: dict(uuid=U[6], sound_event=se(), tags=[tag(v)], created_on=dt)),
+        ("sound_event.features.value", NEAR_F, lambda v: dict(uuid=U[6], sound_event=se(fs=[feat(v)]), created_on=dt)),
+        ("notes.message", NEAR_S[:8], lambda v: dict(uuid=U[6], sound_event=se(), notes=[note(v)], created_on=dt))]
+    S["SoundEventPrediction"] = [
+        ("score", NEAR_01, lambda v: dict(uuid=U[5], sound_event=se(), score=v)),
+        ("tags.score", NEAR_01, lambda v: dict(uuid=U[5], sound_event=se(), score=0.5, tags=[ptag(v)])),
+        ("sound_event.features.value", NEAR_F, lambda v: dict(uuid=U[5], sound_event=se(fs=[feat(v)]), score=0.5))]
+    S["ClipPrediction"] = [
+        ("clip.end_time", NEAR_T, lambda v: dict(uuid=U[7], clip=clip(v))),
+        ("tags.score", NEAR_01, lambda v: dict(uuid=U[7], clip=clip(5.0), tags=[ptag(v)])),
+        ("features.value", NEAR_F, lambda v: dict(uuid=U[7], clip=clip(5.0), features=[feat(v)])),
+        ("sound_events.score", NEAR_01, lambda v: dict(uuid=U[7], clip=clip(5.0), sound_events=[sep(v)]))]
+    return S
+
+
+def _near_cases(ctx):
+    """all ordered pairs of objects of one class that differ in one scalar by very little (or in its spelling)"""
+    cases = []
+    for c, specs in _near_specs().items():
+        for label, values, mk in specs:
+            trees = []
+            for v in values:
+                trees.append(walk(_construct(c, mk(v))))
+            for a in trees:
+                for b in trees:
+                    cases.append({"a": a, "b": b})
+            ctx.tally(f"eq_hash near {c}.{label}", len(trees))
+    return cases
+
+
 def _eq_hash_cases(ctx):
     cases = []
     B = _bases()
@@ -1205,6 +1303,11 @@ def _stage_tag_eq(ctx):
 def _stage_eq_hash(ctx):
     # eq / hash on the eight classes
     ctx.run_cases(OPS["eq_hash"], _eq_hash_cases(ctx))
+    ctx.run_cases(OPS["eq_hash"], _near_cases(ctx))
+    ctx.exhaustive["eq_hash near"] = ("per hashable class and per scalar in reach of == (own fields and nested objects): all "
+                                      "ordered pairs of values 1 ulp / relative 1e-12..1e-9 / absolute 1e-12 apart, int vs "
+                                      "float spellings, signed zeros; strings differing by case, blanks, NFC/NFD, "
+                                      "compatibility forms; judged: == vs exact equality, == => same hash, set / dict membership")
     ctx.exhaustive["eq_hash"] = ("all ordered pairs of {base, copy, every one-field variant twice} per hashable class; every "
                                  "pool object also obtained by " + ", ".join(HOWS) + " from an object hashed before")
 
@@ -1486,5 +1589,6 @@ def search(ctx, failures):
     plists = list(_lists(items, 2))
     ctx.run_cases(OPS["prediction"], ({"vocab": v, "preds": p} for v in vocs for p in rng.sample(plists, 30)))
     ctx.run_cases(OPS["eq_hash"], _eq_hash_cases(ctx))
+    ctx.run_cases(OPS["eq_hash"], _near_cases(ctx))
     for st in (_stage_generic, _stage_find, _stage_init, _stage_raw):
         ctx.stage("search:" + st.__name__, st, ctx)
